@@ -52,6 +52,8 @@ Ltac pl_bind1 :=
   | |- bind (Ok ?x) ?f = ?R => change (f x = R); cbv beta
   end.
 
+(* brute-force case analysis; callers bound it with [timeout] so that a source change that makes
+   the two sides drift apart fails in bounded time instead of exploring 2^k cases *)
 Ltac pl_crunch :=
   repeat first
     [ progress cbn [bind fst snd option_map line_fields app
@@ -93,18 +95,18 @@ Proof.
               = (r <- parse_tail2 s tags src nick ident host s2 ;; Ok (option_map line_fields r))).
     { intros. unfold k2, parse_tail2, parse_args_stage, is_ctcp_cond, ctcp_rewrite,
         s_space, s_space_colon, s_soh, cmd_PRIVMSG, cmd_NOTICE, cmd_ACTION, cmd_CTCP, cmd_CTCPREPLY.
-      cbv beta iota zeta. pl_crunch. }
+      cbv beta iota zeta. timeout 60 pl_crunch. }
     clearbody k2. unfold s_space. cbv zeta.
-    repeat first
+    timeout 60 (repeat first
       [ progress cbn [bind user_host_results]
       | rewrite Hk2 | rewrite go_puh_eq | rewrite bind_assoc
       | match goal with |- context [user_host_results ?o] =>
           is_var o; destruct o as [[[? ?] ?]|] end
-      | go_case1 ];
+      | go_case1 ]);
     try reflexivity. }
   clearbody k1. unfold s_space, c_semi. cbv zeta.
-  repeat first
+  timeout 60 (repeat first
     [ progress cbn [bind]
-    | rewrite Hk1 | rewrite Hloop | rewrite bind_assoc | go_case1 ];
+    | rewrite Hk1 | rewrite Hloop | rewrite bind_assoc | go_case1 ]);
   try reflexivity.
 Qed.
